@@ -133,7 +133,7 @@ func c16Tamper(r *core.Run, c c16Cipher, allValues bool) {
 }
 
 func runC16(r *core.Run) {
-	r.Rule = "E1: LeaseSet2 values of the generator within 1 variation x 2 recipient key pairs x 2 cookies under a deterministic crypto/rand.Reader; for each of the selected ciphertexts EVERY byte position x the 8 single-bit flips (thorough: all 255 other values, all ciphertexts); wrong private keys; truncated / extended ciphertexts. Blinding: destination types 7 and 11 x 3 secrets x 3 instants around UTC midnight each expressed in 4 time zones x alphas {derived, of the next day, zero, another secret's, derived with one bit changed}. Oracles: decrypt(encrypt(x)) serialises to x's bytes; any modification or wrong key => error and nil value; blinded key == A + alpha*B computed with filippo.io/edwards25519; equal across zones for the same UTC day, different across days; VerifyBlindedSignature true exactly for the derived factor (also false for all 256 factors one bit away and for alpha + k*L). Sequences: every sequence of <= 3 (thorough 4) operations over {encrypt(3 plaintexts x 2 recipients), decrypt(oldest)} without copying returned ciphertexts; after every step every earlier ciphertext is unchanged and decrypts to its own plaintext. non-trivial = distinct (ciphertext, position, value) tamperings that were rejected, round trips, and blinding tuples evaluated"
+	r.Rule = "E1: LeaseSet2 values of the generator within 1 variation x 2 recipient key pairs x 2 cookies under a deterministic crypto/rand.Reader; for each of the selected ciphertexts EVERY byte position x the 8 single-bit flips (thorough: all 255 other values, all ciphertexts); wrong private keys; truncated / extended ciphertexts. Blinding: destination types 7 and 11, KEY certificates with and without extra payload x 3 secrets x 3 instants around UTC midnight each expressed in 4 time zones x alphas {derived, of the next day, zero, another secret's, derived with one bit changed}. Oracles: decrypt(encrypt(x)) serialises to x's bytes; any modification or wrong key => error and nil value; blinded key == A + alpha*B computed with filippo.io/edwards25519; equal across zones for the same UTC day, different across days; VerifyBlindedSignature true exactly for the derived factor (also false for all 256 factors one bit away and for alpha + k*L). Sequences: every sequence of <= 3 (thorough 4) operations over {encrypt(3 plaintexts x 2 recipients), decrypt(oldest)} without copying returned ciphertexts; after every step every earlier ciphertext is unchanged and decrypts to its own plaintext. non-trivial = distinct (ciphertext, position, value) tamperings that were rejected, round trips, and blinding tuples evaluated"
 	r.Assume("alpha derivation (HKDF) is go-i2p/crypto's kdf.DeriveBlindingFactor (third party, trusted); the blinded point itself is recomputed independently")
 	det := &detReader{}
 	crand.Reader = det
@@ -269,9 +269,14 @@ func c16Blinding(r *core.Run) {
 	instants := []time.Time{day, day.Add(24*time.Hour - time.Millisecond), day.Add(24 * time.Hour)}
 	zones := []*time.Location{time.UTC, time.FixedZone("UTC+14", 14*3600), time.FixedZone("UTC-12", -12*3600), time.FixedZone("+0530", 5*3600+1800)}
 	secrets := [][]byte{make([]byte, 32), refmodel.Fill("secret", 1, 32), refmodel.Fill("secret", 2, 64)}
-	for _, st := range []int{7, 11} {
+	type bdest struct {
+		st    int
+		extra []byte
+	}
+	for _, bd := range []bdest{{7, nil}, {11, nil}, {7, []byte{0xde, 0xad, 0xbe, 0xef, 0x01}}, {11, []byte{0x01}}} {
+		st := bd.st
 		kp := gen.Key(st, 81)
-		k := refmodel.NewKAC(st, 4, false, nil, refmodel.Fill("bc", 1, 32), refmodel.Fill("bp", 1, 320), kp.Pub)
+		k := refmodel.NewKAC(st, 4, false, bd.extra, refmodel.Fill("bc", 1, 32), refmodel.Fill("bp", 1, 320), kp.Pub)
 		d, _, err := destination.ReadDestination(k.Bytes())
 		if err != nil {
 			r.Violate("C16|blinding|destination-does-not-parse", err.Error(), core.Case{Kind: "blind", Args: map[string]string{"sigtype": fmt.Sprint(st)}})
@@ -311,6 +316,14 @@ func c16Blinding(r *core.Run) {
 					c0, c1 := d.Certificate().Bytes(), b.Certificate().Bytes()
 					if pk1 == nil || !bytes.Equal(pk0.Bytes(), pk1.Bytes()) || !bytes.Equal(d.Padding, b.Padding) || !bytes.Equal(c0, c1) {
 						r.Violate(id+"|other-fields-changed", "blinding changed the encryption key, padding or certificate", cs)
+					}
+					// and on the wire: the blinded destination is the original with only the signing key replaced
+					if bb, err := b.Bytes(); err == nil && bk != nil {
+						wantB := append([]byte(nil), k.Bytes()...)
+						copy(wantB[384-len(want):384], want)
+						if !bytes.Equal(bb, wantB) {
+							r.Violate(id+"|other-fields-changed[wire]", fmt.Sprintf("the blinded destination's bytes differ from the original's outside the signing key (certificate payload %d bytes)", len(k.Cert.Payload)), cs)
+						}
 					}
 					if bytes.Equal(bk.Bytes(), kp.Pub) {
 						r.Violate(id+"|signing-key-unchanged", "blinded signing key equals the original", cs)
@@ -353,7 +366,7 @@ func c16Blinding(r *core.Run) {
 							}
 						}
 					}
-					r.Distinct([]byte("blind"), []byte{byte(st), byte(si), byte(ii), byte(zi)})
+					r.Distinct([]byte("blind"), []byte{byte(st), byte(si), byte(ii), byte(zi), byte(len(bd.extra))})
 				}
 			}
 			// same UTC day (instants 0 and 1) => same key; next day => different
